@@ -172,6 +172,54 @@ func psParallel(a kv) string {
 	return fmt.Sprintf("ok failed=%d bad=%d", atomic.LoadInt64(&failed), bad)
 }
 
+// psDelSave: the database holds ONE entry; its deletion and the save of ANOTHER fan's entry are both waiting for the
+// database file (held by a third handle) and run one after the other in whatever order the lock is handed on. The save
+// reported success, so the entry must be loadable afterwards. `trials` rounds; the database must be empty when the op
+// starts (the generator only uses it directly after ps.open) and is empty again when it ends.
+func psDelSave(a kv) string {
+	trials, seed := a.int("trials", 8), a.int("seed", 1)
+	bad, failed := 0, 0
+	for t := 0; t < trials; t++ {
+		ida, idb := fmt.Sprintf("dsA%d", t), fmt.Sprintf("dsB%d", t)
+		da := map[int]float64{10: float64(100 + t + seed)}
+		dbv := map[int]float64{20 + t%50: float64(200 + t + seed), 200: 3000}
+		if err := curPs.p.SaveFanPwmData(psFan(ida, &da)); err != nil {
+			return "err"
+		}
+		db, err := bolt.Open(curPs.path, 0600, nil)
+		if err != nil {
+			return "err"
+		}
+		var wg sync.WaitGroup
+		var e1, e2 error
+		wg.Add(2)
+		first := func() { defer wg.Done(); e1 = persistence.NewPersistence(curPs.path).DeleteFanPwmData(psFan(ida, nil)) }
+		second := func() { defer wg.Done(); e2 = persistence.NewPersistence(curPs.path).SaveFanPwmData(psFan(idb, &dbv)) }
+		if (t+seed)%2 == 0 {
+			go first()
+			time.Sleep(3 * time.Millisecond)
+			go second()
+		} else {
+			go second()
+			time.Sleep(3 * time.Millisecond)
+			go first()
+		}
+		time.Sleep(time.Duration(a.int("hold_ms", 25)) * time.Millisecond)
+		_ = db.Close()
+		wg.Wait()
+		if e1 != nil || e2 != nil {
+			failed++
+		}
+		got, err := persistence.NewPersistence(curPs.path).LoadFanPwmData(psFan(idb, nil))
+		if e2 == nil && (err != nil || fmtFloatMap(got) != fmtFloatMap(dbv)) {
+			bad++
+		}
+		_ = persistence.NewPersistence(curPs.path).DeleteFanPwmData(psFan(idb, nil))
+		_ = persistence.NewPersistence(curPs.path).DeleteFanPwmData(psFan(ida, nil))
+	}
+	return fmt.Sprintf("ok failed=%d bad=%d", failed, bad)
+}
+
 // psInitBusy: a controller starting up calls Init() while another handle (a controller that is loading or saving, a
 // `fan2go fan ...` command) holds the database file for `hold_ms`. Init must leave the stored entries alone.
 func psInitBusy(a kv) string {
@@ -213,6 +261,8 @@ func init() {
 			return psParallel(a)
 		case "ps.initbusy":
 			return psInitBusy(a)
+		case "ps.delsave":
+			return psDelSave(a)
 		case "ps.reopen":
 			curPs.p = persistence.NewPersistence(curPs.path)
 			return "ok"
